@@ -891,10 +891,33 @@ pub fn gen_c11(thorough: bool, rng: &mut Rng, out: &mut Vec<String>) {
     for s in ["", " ", "\n", "#", "# é", "\"", "\"é", ";", "é", "中文", "-", "+", ".", "1", "1e", "VERSION", "VERSION 5.8", "VERSION 5.8 ;", "MACRO", "MACRO é", "END", "END LIBRARY", "BEGINEXT", "BEGINEXT \"x\"", "BEGINEXT \"x\" é", "UNITS", "PROPERTYDEFINITIONS", "VIA v", "SITE s", "\u{a0}", "\u{2028}MACRO", "a\u{3000}b", "𝄞", "\r", "\r\n\r\n", "\t\t", "MACRO a\nFOREIGN é 1 ;", "VERSION é ;", "MACRO m PIN p PORT LAYER l ; RECT 0 0 é 1 ;", "MACRO m SIZE 1 BY", "MACRO m\n  SIZE é BY 2 ;\nEND m", "NAMESCASESENSITIVE ON ;", "VERSION 5.4 ; NAMESCASESENSITIVE ü ;"] {
         push(out, s, true);
     }
+    // Unicode class sweep: one character of every kind that a classification function might treat
+    // specially (digits and numerics of other scripts, letters, marks, symbols, every White_Space
+    // character, zero-width and BOM), as the first / only / last character of a token, followed by
+    // end of input, by ASCII and by another multi-byte character.
+    for c in ["٣", "２", "²", "½", "Ⅷ", "௧", "𝟙", "é", "ß", "中", "Ω", "µ", "\u{301}", "€", "→", "«", "—", "𝄞", "\u{a0}", "\u{85}", "\u{1680}", "\u{2003}", "\u{2028}", "\u{2029}", "\u{202f}", "\u{205f}", "\u{3000}", "\u{200b}", "\u{feff}", "\u{b}", "\u{c}", "\u{0}", "\u{7f}", "\u{10ffff}"] {
+        for form in [format!("{}", c), format!("{}é", c), format!("{}x", c), format!("a {}", c), format!("{}{}", c, c), format!("1{}", c), format!("-{}", c), format!("\"{}", c), format!("#{}", c),
+                     format!("VERSION 5.8 ;\nMACRO {}nand\nEND {}nand", c, c), format!("MACRO m SIZE {}1 BY 2 ;", c), format!("MACRO {}", c), format!("MACRO m\nEND m{}", c)] {
+            push(out, &form, true);
+        }
+    }
+    // error reports quote at most 200 characters of the offending line: lines around that length,
+    // filled with 1-, 2-, 3- and 4-byte characters at every alignment
+    for ch in ["é", "中", "𝄞", "a"] {
+        for pad in 0..9usize {
+            for n in [40usize, 70, 100, 199, 200, 201] {
+                let filler: String = std::iter::repeat(ch).take(n).collect();
+                push(out, &format!("{} \"{}\" ;", "a".repeat(pad), filler), pad % 4 == 0);
+                push(out, &format!("VERSION 5.8 ;\nMACRO m\n{}SIZE 1 BY # {}\n", " ".repeat(pad), filler), false);
+            }
+        }
+    }
     for b in 0..nbase {
         let libseed = rng.next() % 1_000_000_007;
         let lib = gen_lib(libseed);
         let txt = render(&lib, rng.below(1 << 40));
+        // every fourth base text is also used as ONE long line (no comments, blanks only)
+        let txt = if b % 4 == 3 { render(&lib, 3 * (b as u64 % 2)).replace('\n', " ") } else { txt };
         let toks: Vec<(usize, usize)> = lef21::verif_hooks::lex(&txt).map(|v| v.iter().map(|(_, s, e)| (*s, *e)).collect()).unwrap_or_default();
         push(out, &txt, true);
         if toks.is_empty() { continue; }
